@@ -43,7 +43,10 @@ def verdict (results : List String) (regIds : List (Nat × Bytes)) (post : List 
     -- at the 32-bit maximum the counter stays (C08): the clause is about counters below it
     -- ... and about credentials that have a counter: one without reports zero every time (C08)
     let stored := (post.find? (fun p => hx p.credId == c)).bind (·.counter)
-    if ks.any (· ≥ 4294967295) || stored.isNone then none
+    if stored.isNone then none
+    else if ks.any (· ≥ 4294967295) then
+      -- ... the largest reported value is still the stored one (a counter that wraps around starts again below it)
+      (if some (ks.foldl max 0) != stored then some "fail:stored-counter-is-not-the-largest-reported-counter" else none)
     else if ks.eraseDups.length != ks.length then
       -- which pair shares a counter: one whose ceremonies overlapped (lookups before write-backs), or not even that
       let serialDup := mine.any (fun a => mine.any (fun b => a.1 < b.1 && a.2.2 == b.2.2 && serial a.1 b.1))
@@ -67,6 +70,11 @@ def step (au : Driver.Auth.St) (st : St) (op : List String) (impl : String) : Dr
     | some (req, uv, _, draws, _) =>
       let dr := draws.getD Driver.Auth.emptyDraws
       (au, { threads := st.threads ++ [startMake req uv dr], regIds := st.regIds ++ [(st.threads.length, dr.credId)] }, "-\tna")
+    | none => (au, st, "bad-op\tna")
+  | ["cc.thread", "U", h] =>
+    -- a U2F registration under the key handle `h` (judged by the statement's clauses only: `cc.spec`)
+    match bytesOfHex h with
+    | some handle => (au, { threads := st.threads ++ [.doneMake (.error 1)], regIds := st.regIds ++ [(st.threads.length, handle)] }, "-\tna")
     | none => (au, st, "bad-op\tna")
   | ["cc.run", sched] =>
     match (sched.splitOn ",").mapM String.toNat? with
